@@ -108,7 +108,7 @@ class Log:
         self.tags = []   # s / p / c per residual column
         self.V = []      # (r, y)
         self.G = []      # (r, proj, grad, hess)
-        self.Q = []      # (H, g, dl, du, nfree, dx)
+        self.Q = []      # (H, g, dl, du, nfree, dx after, dx before)
         self.last = "start"
 
 
@@ -155,9 +155,10 @@ def run_problem(spec):
     real_qp = mujoco.mju_boxQP
 
     def qp(res, R, index, H, g, lower, upper):
+        warm = hv(res)  # mju_boxQP warm-starts from the incoming contents of the buffer
         nfree = real_qp(res, R, index, H, g, lower, upper)
         log.Q.append((hv(H), hv(g), None if lower is None else hv(lower), None if upper is None else hv(upper),
-                      int(nfree), hv(res)))
+                      int(nfree), hv(res), warm))
         log.last = "qp"
         return nfree
 
@@ -247,8 +248,8 @@ def model_part(spec, log, kw):
     for r, proj, g, h in log.G:
         t += r + proj + g + h
     t.append(str(len(log.Q)))
-    for H, g, dl, du, nfree, dx in log.Q:
-        t += H + g
+    for H, g, dl, du, nfree, dx, warm in log.Q:
+        t += warm + H + g
         if hb:
             t += dl + du
         t.append("1" if nfree >= 0 else "0")
@@ -261,7 +262,7 @@ def qp_contract(log):
     total ok answers, infeasible (dx outside [dlower, dupper]), ascent (grad.dx > 0) while dx = 0 was feasible,
     ascent while dx = 0 was infeasible (x itself outside the box)."""
     infeasible = ascent_in = ascent_out = total = 0
-    for H, g, dl, du, nfree, dx in log.Q:
+    for H, g, dl, du, nfree, dx, warm in log.Q:
         if nfree < 0:
             continue
         total += 1
